@@ -134,7 +134,10 @@ class PyFormatter(Formatter):
         return f"{factory}()"
 
     def format_default_value_enum(self, t: Enum) -> str:
-        return f"{self.format_type(t)}.{self.format_enum_field_name(t.fields()[0])}"
+        fields = t.fields()
+        if not fields:  # Enum without members, fall back to the integer zero.
+            return self.format_default_value_uint()
+        return f"{self.format_type(t)}.{self.format_enum_field_name(fields[0])}"
 
     def format_default_value_array(self, t: Array) -> str:
         cap = self.format_int_value(t.cap)
